@@ -10,16 +10,16 @@ from ..absint import CTX, GenList
 from ..absval import Raised
 from ..core import AnalysisError, own_nodes, norm, parents
 
-LEVEL_TEXT = ("static analysis: (D1) _parse_records interpreted on symbolic records: start = record.start (pysam's 0-based POS - 1), end = "
-              'INFO/END when present else start + len(alt), one row per real alternate allele; (D2) _extract_genotype / _get_alt_count over the '
+LEVEL_TEXT = ("static analysis: (D1) read_vcf interpreted end to end on literal files (a pysam.VariantFile stand-in that iterates the records, has header.samples / header.records and restricts the sample columns on subset_samples; the private helpers are reached through it, whatever their names and signatures): start = record.start (pysam's 0-based POS - 1), end = "
+              'INFO/END when present else start + len(alt), one row per real alternate allele; (D2) the same, on one-record files over the '
               'finite biallelic GT domain x depth source (FORMAT/DP, sum of AD, INFO/DP, none) x allele-count source (AD pair, scalar AD, CLCAD2,'
               ' AO tuple / scalar, none): zygosity 0 / 0.5 / 1, depth and alt count from the documented field in the documented precedence; (D3) '
               'alt_freq = alt_count / depth (likewise for the normal), mirrored BAF = 0.5 +- |v - 0.5| by `above_half` (True / False / None = '
               'majority, every combination with the majority side), TumorBoost = 0.5 t/n where t < n else 1 - 0.5 (1 - t)/(1 - n), as exact '
               "rational identities; (D4) read_vcf keeps a record <=> depth (the normal's when paired) >= min_depth (a missing depth counts as 0) "
               'and, when asked, not SOMATIC; load_het_snps passes skip_somatic and the depth cut-off, drops tumour-variant / normal-reference '
-              "genotypes, then keeps the (normal's) heterozygous records -- also when every record is somatic; (D5) _choose_samples over sample "
-              'lists x PEDIGREE pairs x requested ids: PEDIGREE pairs first, else the given normal paired with every other sample, else all '
+              "genotypes, then keeps the (normal's) heterozygous records -- also when every record is somatic; (D5) the sample whose fields read_vcf reads (and the subset the reader is restricted to), over sample "
+              'lists x PEDIGREE header lines x requested ids: PEDIGREE pairs first, else the given normal paired with every other sample, else all '
               'samples unpaired; restricted to the requested sample; a requested control sample comes back alone; the first pair wins; unknown '
               "ids raise; (D6) TumorBoost values are stored back through a Series built on the variants' own index, at both store sites, with "
               "heterozygous() interpreted for real (a fresh 0..n-1 index, or the full array's labels on a renumbered subset, would be aligned by "
@@ -46,46 +46,112 @@ def rec(start, ref, alts, info=None, samples=None, flt=()):
                 "samples": dict(samples or {}), "filter": list(flt), "id": None, "stop": None})
 
 
+class VcfFile(list):
+    """a pysam.VariantFile stand-in: iterating gives the records; .header.samples / .header.records; subset_samples() restricts every record's sample
+    columns in place, as pysam does"""
+
+    def __init__(self, records, samples, header_records=()):
+        super().__init__(records)
+        self.samples = list(samples)
+        self.hrecs = list(header_records)
+        self.subsets = []
+
+
+def hrec(key, **items):
+    return Row({"key": key, "items": (lambda: list(items.items()))})
+
+
+def vcf_model(vf, model=None):
+    m = model or Model()
+    m.ext["pysam.VariantFile"] = lambda it, f, *a, **k: vf
+
+    def attr(it, obj, a):
+        if isinstance(obj, VcfFile):
+            if a == "header":
+                return Row({"samples": list(obj.samples), "records": list(obj.hrecs)})
+        return NotImplemented
+    m.attr_hooks.append(attr)
+
+    def meth(it, obj, name, args, kw):
+        if isinstance(obj, VcfFile) and name == "subset_samples":
+            ids = list(args[0])
+            obj.subsets.append(ids)
+            for r in obj:
+                r.samples = {k: v for k, v in r.samples.items() if k in ids}        # pysam keeps the file's column order, not the order asked for
+            obj.samples = [k for k in obj.samples if k in ids]
+            return None
+        return NotImplemented
+    m.method_hooks.append(meth)
+    return m
+
+
+def read_vcf_on(prog, tb, label, records, samples, args, header_records=(), atoms=None):
+    """read_vcf interpreted end to end on a literal file: (table | None, VcfFile).  The private helpers behind it (record parsing, genotype extraction,
+    sample choice, PEDIGREE parsing) are reached through it, whatever they are called and however the work is split between them."""
+    vf = VcfFile(records, samples, header_records)
+    it = Interp(prog, vcf_model(vf))
+    old = CTX.atoms
+    if atoms is not None:
+        CTX.atoms = atoms
+    try:
+        out = tb.guard(lambda: it.run(f"{V}.read_vcf", ["x.vcf"] + list(args)), label)
+    finally:
+        CTX.atoms = old
+    return out, vf
+
+
+def cellv(table, col, i):
+    c = table.cols.get(col)
+    return c.v[i] if c is not None and i < len(c.v) else None
+
+
+def kept_rows(table):
+    keep = table.cols.get("__keep__")
+    n = len(next(iter(table.cols.values())).v) if table.cols else 0
+    return [k is True for k in keep.v] if keep is not None else [True] * n
+
+
 def d1(chk, prog):
     chk.clause("D1", "coordinates: start = record.start (0-based); end = INFO/END or start + len(alt); one row per real alt allele")
-    fi = prog.fn(f"{V}._parse_records")
-    tb = Table(chk, "vcf-coordinates", "_parse_records rows", fi.loc(), fi.qn)
+    fi = prog.fn(f"{V}.read_vcf")
+    tb = Table(chk, "vcf-coordinates", "read_vcf rows on a literal file (five records: SNV, two alternates with <NON_REF>, <DEL> with INFO/END, no ALT, REJECTed)", fi.loc(), fi.qn)
     W.reset()
-    it = Interp(prog)
     s = [Term.sym(f"s{i}", 0, INF, True) for i in range(4)]
     E = Term.sym("END", 0, INF, True)
     smp = {"T": {"GT": (0, 1), "DP": 30, "AD": (20, 10)}}
     records = [rec(s[0], "A", ["C"], {}, smp), rec(s[1], "A", ["CTG", "<NON_REF>"], {}, smp), rec(s[2], "A", ["<DEL>"], {"END": E, "SOMATIC": True}, smp), rec(s[3], "A", None, {}, smp),
                rec(s[3], "A", ["G"], {}, smp, flt=["REJECT"])]
-    out = tb.guard(lambda: list(it.run(fi.qn, [records, "T", None, True])), "records")
+    out, _ = read_vcf_on(prog, tb, "records", records, ["T"], ["T", None, None, True, False])
     if out is not None:
         want = [("chr7", s[0], t_add(s[0], Term.const(1)), "A", "C", False), ("chr7", s[1], t_add(s[1], Term.const(3)), "A", "CTG", False), ("chr7", s[2], E, "A", "<DEL>", True)]
-        ok = len(out) == len(want)
-        for g, w in zip(out, want):
-            okr = g[0] == w[0] and same(g[1], w[1]) and same(g[2], w[2]) and g[3] == w[3] and g[4] == w[4] and g[5] is w[5] and same(g[6], Fr(1, 2)) and same(g[7], 30) and same(g[8], 10)
-            tb.cell(okr, dict(row=[repr(x) for x in g], want=[repr(x) for x in w]))
-        tb.cell(ok, dict(rows=len(out), want_rows=len(want), note="the <NON_REF> placeholder, the record without ALT and the REJECTed record give no row"))
+        kept = kept_rows(out)
+        n = len(kept)
+        for i, w in enumerate(want):
+            g = [cellv(out, c, i) for c in ("chromosome", "start", "end", "ref", "alt", "somatic", "zygosity", "depth", "alt_count", "alt_freq")]
+            okr = i < n and kept[i] and g[0] == w[0] and same(g[1], w[1]) and same(g[2], w[2]) and g[3] == w[3] and g[4] == w[4] and g[5] is w[5] and same(g[6], Fr(1, 2)) and same(g[7], 30) and same(g[8], 10) \
+                and same(g[9], Fr(1, 3))
+            tb.cell(okr, dict(row=[repr(x) for x in g], want=[repr(x) for x in w] + ["1/2", "30", "10", "1/3"]))
+        tb.cell(n == len(want), dict(rows=n, want_rows=len(want), note="the <NON_REF> placeholder, the record without ALT and the REJECTed record give no row"))
     # a tumour / normal pair, in either column order (and with a third, unrelated sample in the file): each sample's own genotype fields, found by name
     for order in (("T", "N"), ("N", "T"), ("X", "N", "T"), ("T", "X", "N")):
         W.reset()
-        it = Interp(prog)
         fields = {"T": {"GT": (0, 1), "DP": 30, "AD": (20, 10)}, "N": {"GT": (0, 0), "DP": 44, "AD": (43, 1)}, "X": {"GT": (1, 1), "DP": 7, "AD": (0, 7)}}
         smp2 = {k: fields[k] for k in order}
-        out = tb.guard(lambda: list(it.run(fi.qn, [[rec(s[0], "A", ["C"], {}, smp2)], "T", "N", True])), f"sample columns {order}")
+        out, _ = read_vcf_on(prog, tb, f"sample columns {order}", [rec(s[0], "A", ["C"], {}, smp2)], list(order), ["T", "N", None, True, False])
         if out is None:
             continue
-        g = out[0] if len(out) == 1 else ()
-        okp = len(g) == 12 and same(g[6], Fr(1, 2)) and same(g[7], 30) and same(g[8], 10) and same(g[9], 0) and same(g[10], 44) and same(g[11], 1)
-        tb.cell(okp, dict(sample_columns=list(order), tumour="T", normal="N", row=[repr(x) for x in g], want="zygosity 1/2, depth 30, alt 10; normal: 0, 44, 1"))
+        g = [cellv(out, c, 0) for c in ("zygosity", "depth", "alt_count", "n_zygosity", "n_depth", "n_alt_count", "alt_freq", "n_alt_freq")]
+        okp = None not in g and same(g[0], Fr(1, 2)) and same(g[1], 30) and same(g[2], 10) and same(g[3], 0) and same(g[4], 44) and same(g[5], 1) and same(g[6], Fr(1, 3)) and same(g[7], Fr(1, 44))
+        tb.cell(okp, dict(sample_columns=list(order), tumour="T", normal="N", row=[repr(x) for x in g], want="zygosity 1/2, depth 30, alt 10; normal: 0, 44, 1; frequencies 1/3, 1/44"))
     tb.done("VCF records are not read to (chromosome, 0-based start, end) rows, one per real alternate allele, with each sample's own genotype fields")
 
 
 def d2(chk, prog):
-    chk.clause("D2", "genotype table: zygosity from GT; depth DP -> sum(AD) -> INFO/DP -> NaN; alt count AD[1] / AD / CLCAD2[1] / sum(AO) / AO / NaN")
-    fi = prog.fn(f"{V}._extract_genotype")
-    tb = Table(chk, "genotype-table", "_extract_genotype over GT x depth source x count source", fi.loc(), fi.qn)
+    chk.clause("D2", "genotype table: zygosity from GT; depth DP -> sum(AD) -> INFO/DP -> missing; alt count AD[1] / AD / CLCAD2[1] / sum(AO) / AO / missing")
+    fi = prog.fn(f"{V}.read_vcf")
+    tb = Table(chk, "genotype-table", "read_vcf on a one-record file over GT x depth source x count source (a missing depth / count reads as 0 in the table)", fi.loc(), fi.qn + "::genotype fields")
     gts = {(0, 0): 0, (0, 1): Fr(1, 2), (1, 0): Fr(1, 2), (1, 1): 1, (1, 2): Fr(1, 2), (2, 2): 1}
-    dp, ad0, ad1, idp, ao = (Term.sym(x, 0, INF, True) for x in ("DP", "AD0", "AD1", "INFO_DP", "AO"))
+    dp, ad0, ad1, idp, ao = (Term.sym(x, 1, INF, True) for x in ("DP", "AD0", "AD1", "INFO_DP", "AO"))
     depth_src = {"DP": ({"DP": dp}, {}, dp), "AD": ({"AD": (ad0, ad1)}, {}, t_add(ad0, ad1)), "INFO": ({}, {"DP": idp}, idp), "none": ({}, {}, None)}
     count_src = {"AD pair": ({"AD": (ad0, ad1)}, ad1), "AD single-element": ({"AD": (ad0,)}, 0), "AD scalar": ({"AD": ad1}, ad1), "CLCAD2": ({"CLCAD2": (ad0, ad1)}, ad1),
                  "AO tuple": ({"AO": (ao, ad1)}, t_add(ao, ad1)), "AO scalar": ({"AO": ao}, ao), "none": ({}, None),
@@ -115,59 +181,59 @@ def d2(chk, prog):
         else:
             cwant = None
         W.reset()
-        W.positive.add(ao.n.key())
-        it = Interp(prog)
+        for t in (dp, ad0, ad1, idp, ao):
+            W.positive.add(t.n.key())
         sample = dict({"GT": gt}, **dfmt)
         sample.update(cfmt)
-        r = rec(Term.sym("s"), "A", ["C"], dinfo)
-        old = CTX.atoms
-        CTX.atoms = lambda d, op: True                 # counts are non-zero (filter(None, ...) / `elif sample['AO']`)
-        try:
-            out = tb.guard(lambda: it.run(fi.qn, [sample, r]), f"GT={gt} depth={dname} count={cname}")
-        finally:
-            CTX.atoms = old
+        r = rec(Term.sym("s", 0, INF, True), "A", ["C"], dinfo, {"T": sample})
+        # counts are non-zero (filter(None, ...) / `elif sample['AO']`)
+        out, _ = read_vcf_on(prog, tb, f"GT={gt} depth={dname} count={cname}", [r], ["T"], ["T", None, None, False, False], atoms=lambda d, op: True)
         if out is None:
             continue
-        depth, zyg, cnt = out
-        ok = same(zyg, gts[gt]) and (missing(depth) if dwant_eff is None else (not missing(depth) and same(depth, dwant_eff))) and (missing(cnt) if cwant is None else (not missing(cnt) and same(cnt, cwant)))
+        depth, zyg, cnt = cellv(out, "depth", 0), cellv(out, "zygosity", 0), cellv(out, "alt_count", 0)
+        ok = None not in (depth, zyg, cnt) and same(zyg, gts[gt]) and same(depth, 0 if dwant_eff is None else dwant_eff) and same(cnt, 0 if cwant is None else cwant)
         tb.cell(ok, dict(GT=gt, depth_source=dname, count_source=cname, got=(repr(depth), repr(zyg), repr(cnt)), want=(repr(dwant_eff), str(gts[gt]), repr(cwant))))
     tb.done("zygosity / depth / alt-allele count are not taken from the genotype fields in the documented precedence")
 
 
 def d3(chk, prog):
-    chk.clause("D3", "closed forms: alt_freq, mirrored BAF, TumorBoost")
-    fi = prog.fn(f"{VA}._mirrored_baf")
-    tb = Table(chk, "baf-forms", "_mirrored_baf", fi.loc(), fi.qn)
+    chk.clause("D3", "closed forms: alt_freq (decided with D1 / D4), mirrored BAF, TumorBoost")
+    fi = prog.fn(f"{VA}.VariantArray.mirrored_baf")
+    tb = Table(chk, "baf-forms", "VariantArray.mirrored_baf", fi.loc(), fi.qn)
     for above in (True, False, None):
         for maj in (True, False):             # the majority side matters only when above_half is None
             W.reset()
             it = Interp(prog)
-            v = Vec([Term.sym("lo", 0, Fr(1, 2)), Term.sym("hi", Fr(1, 2), 1)], aligned=True)
+            x = [Term.sym("lo", 0, Fr(1, 2)), Term.sym("hi", Fr(1, 2), 1)]
+            rows = [dict(chromosome="chr1", start=i, end=i + 1, ref="A", alt="C", zygosity=Fr(1, 2), alt_freq=x[i]) for i in range(2)]
+            g = make_ga("VariantArray", rows, {"sample_id": "T"}, index="any")
             old = CTX.atoms
             CTX.atoms = lambda d, op, maj=maj: maj
             try:
-                out = tb.guard(lambda: it.run(fi.qn, [v, above]), f"above_half={above} majority_above={maj}")
+                out = tb.guard(lambda: it.run_method(g, "mirrored_baf", [above]), f"above_half={above} majority_above={maj}")
             finally:
                 CTX.atoms = old
             if out is None:
                 continue
             up = above if above is not None else maj
-            for x, g in zip(v.v, out.v):
-                sh = f_abs(t_sub(x, Term.const(Fr(1, 2))))
+            for xi, gi in zip(x, out.v):
+                sh = f_abs(t_sub(xi, Term.const(Fr(1, 2))))
                 want = t_add(Term.const(Fr(1, 2)), sh) if up else t_sub(Term.const(Fr(1, 2)), sh)
-                tb.cell(same(g, want), dict(above_half=above, majority_above=maj, got=repr(g), want=repr(want)))
+                tb.cell(same(gi, want), dict(above_half=above, majority_above=maj, got=repr(gi), want=repr(want)))
     tb.done("mirrored BAF is not 0.5 +- |v - 0.5|")
-    ft = prog.fn(f"{VA}._tumor_boost")
-    tb2 = Table(chk, "baf-forms", "_tumor_boost (t < n / t >= n)", ft.loc(), ft.qn)
+    ft = prog.fn(f"{VA}.VariantArray.tumor_boost")
+    tb2 = Table(chk, "baf-forms", "VariantArray.tumor_boost (t < n / t > n / t == n)", ft.loc(), ft.qn)
     W.reset()
     it = Interp(prog)
     t = [Term.sym("t0", 0, 1), Term.sym("t1", 0, 1), Term.sym("t2", 0, 1)]
     n = [Term.sym("n0", 0, 1), Term.sym("n1", 0, 1), Term.sym("n2", 0, 1)]
     pts = [{"t0": Fr(1, 5), "n0": Fr(1, 2)}, {"t1": Fr(4, 5), "n1": Fr(1, 2)}, {"t2": Fr(1, 2), "n2": Fr(1, 2)}]
+    rows = [dict(chromosome="chr1", start=i, end=i + 1, ref="A", alt="C", zygosity=Fr(1, 2), n_zygosity=Fr(1, 2), alt_freq=t[i], n_alt_freq=n[i]) for i in range(3)]
+    g = make_ga("VariantArray", rows, {"sample_id": "T"}, index="any")
     old = CTX.atoms
     CTX.atoms = atoms_at(pts)
     try:
-        out = tb2.guard(lambda: it.run(ft.qn, [Vec(t), Vec(n)]), "tumor_boost")
+        out = tb2.guard(lambda: it.run_method(g, "tumor_boost", []), "tumor_boost")
     finally:
         CTX.atoms = old
     if out is not None:
@@ -176,10 +242,6 @@ def d3(chk, prog):
             want = t_div(t_mul(half, t[i]), n[i]) if lt else t_sub(Term.const(1), t_div(t_mul(half, t_sub(Term.const(1), t[i])), t_sub(Term.const(1), n[i])))
             tb2.cell(same(out.v[i], want), dict(case="t < n" if lt else ("t > n" if i == 1 else "t == n"), got=repr(out.v[i]), want=repr(want)))
     tb2.done("TumorBoost does not follow 0.5 t/n (t < n) / 1 - 0.5 (1-t)/(1-n)")
-    fr = prog.fn(f"{V}.read_vcf")
-    stores = {norm(nn.targets[0]): norm(nn.value) for nn in own_nodes(fr.node) if isinstance(nn, ast.Assign) and "alt_freq" in norm(nn.targets[0])}
-    ok = stores.get("table['alt_freq']") == "table['alt_count'] / table['depth']" and stores.get("table['n_alt_freq']") == "table['n_alt_count'] / table['n_depth']"
-    chk.decide(ok, "baf-forms", "alt_freq = alt_count / depth; n_alt_freq = n_alt_count / n_depth", f"{fr.qn}::alt_freq", fr.loc(), f"allele frequencies are computed as {stores}")
 
 
 def d3b(chk, prog):
@@ -218,29 +280,24 @@ def d4(chk, prog):
     chk.clause("D4", "filters: depth (normal's when paired) >= min_depth; SOMATIC dropped when asked; load_het_snps selection")
     fi = prog.fn(f"{V}.read_vcf")
     tb = Table(chk, "vcf-filters", "read_vcf (paired x min_depth x skip_somatic)", fi.loc(), fi.qn)
-    for paired, min_depth, skip_som in itertools.product([False, True], [None, 20], [False, True]):
+    # paired: the normal is named by the caller, or declared by a PEDIGREE header line only (no normal_id given); the file lists the normal's column first
+    for paired, min_depth, skip_som in itertools.product([False, "by id", "by PEDIGREE"], [None, 20], [False, True]):
         W.reset()
-        model = Model()
         depths = [19, 20, 21, 30, None]          # the last record has no depth information at all (DP '.', no AD)
         ndepths = [30, 19, 20, 21, None]
         som = [False, False, True, False, False]
-        rows = []
-        for i in range(5):
-            r = ("chr1", 100 + i, 101 + i, "A", "C", som[i], Fr(1, 2), depths[i], 5)
-            if paired:
-                r += (Fr(1, 2), ndepths[i], 7)
-            rows.append(r)
-        model.prims[f"{V}._parse_records"] = lambda it, rd, sid, nid, sr, rows=rows: list(rows)
-        model.prims[f"{V}._choose_samples"] = lambda it, rd, s, n, paired=paired: ("T", "N" if paired else None)
-        hdr = Row({"samples": ["T", "N"], "records": []})
-        rd = Row({"header": hdr, "subset_samples": (lambda ids: None)})
-        model.ext["pysam.VariantFile"] = lambda it, f: rd
-        it = Interp(prog, model)
-        out = tb.guard(lambda: it.run(fi.qn, ["x.vcf", None, None, min_depth, False, skip_som]), f"paired={paired} min_depth={min_depth} skip_somatic={skip_som}")
+
+        def smp(d, alt):
+            return {"GT": (0, 1)} if d is None else {"GT": (0, 1), "DP": d, "AD": (d - alt, alt)}
+        records = [rec(100 + i, "A", ["C"], {"SOMATIC": True} if som[i] else {}, {"N": smp(ndepths[i], 7), "T": smp(depths[i], 5)}) for i in range(5)]
+        out, vf = read_vcf_on(prog, tb, f"paired={paired} min_depth={min_depth} skip_somatic={skip_som}", records, ["N", "T"], ["T", "N" if paired == "by id" else None, min_depth, False, skip_som],
+                              header_records=[hrec("PEDIGREE", Derived="T", Original="N")] if paired == "by PEDIGREE" else ())
         if out is None:
             continue
         keep = out.cols.get("__keep__")
         kept = [k is True for k in keep.v] if keep is not None else [True] * 5
+        if [sorted(x) for x in vf.subsets] != [["N", "T"] if paired else ["T"]]:
+            kept = f"the reader was restricted to {vf.subsets}"
         dd = ndepths if paired else depths
         want = [(min_depth is None or (dd[i] is not None and dd[i] >= min_depth)) and not (skip_som and som[i]) for i in range(5)]
         okf = all(same(out.cols["alt_freq"].v[i], Fr(5, depths[i])) for i in range(4)) and (not paired or all(same(out.cols["n_alt_freq"].v[i], Fr(7, ndepths[i])) for i in range(4)))
@@ -307,8 +364,11 @@ def d4(chk, prog):
 
 def d5(chk, prog):
     chk.clause("D5", "sample choice precedence")
-    fi = prog.fn(f"{V}._choose_samples")
-    tb = Table(chk, "sample-choice", "_choose_samples (samples x PEDIGREE x requested ids)", fi.loc(), fi.qn)
+    # read_vcf does not return the chosen ids: they are read off the table it builds from a file whose samples carry distinct depths (the tumour's in
+    # `depth`, the normal's in `n_depth`, no n_ columns when unpaired) and off the subset the reader was restricted to
+    fi = prog.fn(f"{V}.read_vcf")
+    tb = Table(chk, "sample-choice", "read_vcf on a one-record file: which sample's fields are read (samples x PEDIGREE header x requested ids)", fi.loc(), fi.qn + "::sample choice")
+    DEPTH = {"T": 30, "N": 44, "X": 7, "A": 5}
     cases = []
     for samples in (["T", "N"], ["N", "T", "X"], ["A"]):
         for peds in ([], [("T", "N")]):
@@ -319,21 +379,22 @@ def d5(chk, prog):
                     cases.append((samples, peds, sid, nid))
     for samples, peds, sid, nid in cases:
         W.reset()
-        model = Model()
-        model.prims[f"{V}._parse_pedigrees"] = lambda it, rd, peds=peds: list(peds)
-        it = Interp(prog, model)
-        rd = Row({"header": Row({"samples": list(samples), "records": []})})
+        # the PEDIGREE pairs stand in the header, between other header records (and beside a PEDIGREE line without Derived / Original)
+        hdr = [hrec("INFO", ID="DP")] + [hrec("PEDIGREE", Derived=t, Original=n) for t, n in peds] + [hrec("PEDIGREE", Name="x"), hrec("contig", ID="chr1")]
+        records = [rec(100, "A", ["C"], {}, {k: {"GT": (0, 1), "DP": DEPTH[k], "AD": (DEPTH[k] - 1, 1)} for k in samples})]
         s_eff = samples[sid] if isinstance(sid, int) and sid < len(samples) else sid
         invalid = (isinstance(sid, int) and sid >= len(samples)) or (isinstance(s_eff, str) and s_eff not in samples) or (nid is not None and nid not in samples)
+        vf = VcfFile(records, samples, hdr)
+        it = Interp(prog, vcf_model(vf))
         try:
-            got = it.run(fi.qn, [rd, sid, nid])
+            out = it.run(fi.qn, ["x.vcf", sid, nid, None, False, False])
             raised = None
         except Raised as e:
-            got, raised = None, str(e)
+            out, raised = None, str(e)
         except Undecided as e:
             raise AnalysisError(f"C18-D5: {e} for {samples} {peds} {sid} {nid}")
         if invalid:
-            tb.cell(raised is not None and "IndexError" in raised, dict(samples=samples, pedigree=peds, sample_id=sid, normal_id=nid, got=repr(got), want="IndexError"))
+            tb.cell(raised is not None and "IndexError" in raised, dict(samples=samples, pedigree=peds, sample_id=sid, normal_id=nid, got=repr(out), want="IndexError"))
             continue
         if peds:
             pairs = list(peds)
@@ -346,21 +407,14 @@ def d5(chk, prog):
         if not pairs:
             pairs = [(s_eff, None)]
         want = pairs[0]
-        tb.cell(raised is None and got is not None and tuple(got) == tuple(want), dict(samples=samples, pedigree=peds, sample_id=sid, normal_id=nid, got=repr(got), raised=raised, want=want))
-    tb.done("the sample / paired normal is not chosen by the documented rules (PEDIGREE pairs, else given ids, else first sample; a requested control comes back alone)")
-    # PEDIGREE header parsing
-    fp = prog.fn(f"{V}._parse_pedigrees")
-    W.reset()
-    it = Interp(prog)
-
-    def hr(key, **items):
-        return Row({"key": key, "items": (lambda: list(items.items()))})
-    rd = Row({"header": Row({"samples": ["n1", "t1"], "records": [hr("INFO", ID="DP"), hr("PEDIGREE", Derived="t1", Original="n1"), hr("PEDIGREE", Name="x"), hr("contig", ID="chr1")]})})
-    try:
-        out = list(it.run(fp.qn, [rd]))
-    except (Undecided, Raised) as e:
-        raise AnalysisError(f"C18-D5 pedigree: {e}")
-    chk.decide(out == [("t1", "n1")], "sample-choice", "PEDIGREE Derived/Original -> (tumour, normal)", f"{fp.qn}::PEDIGREE", fp.loc(), f"got {out}")
+        got = None
+        if out is not None:
+            d, nd = cellv(out, "depth", 0), cellv(out, "n_depth", 0)
+            who = {v: k for k, v in DEPTH.items()}
+            got = (next((k for v, k in who.items() if d is not None and same(d, v)), "?"), None if nd is None else next((k for v, k in who.items() if same(nd, v)), "?"))
+        tb.cell(raised is None and got is not None and tuple(got) == tuple(want) and [sorted(x) for x in vf.subsets] == [sorted(x for x in want if x)],
+                dict(samples=samples, pedigree=peds, sample_id=sid, normal_id=nid, got=repr(got), reader_restricted_to=vf.subsets, raised=raised, want=want))
+    tb.done("the sample / paired normal is not chosen by the documented rules (PEDIGREE Derived / Original pairs, else given ids, else first sample; a requested control comes back alone)")
 
 
 def d6(chk, prog):
